@@ -26,6 +26,7 @@ def scenarios(tier, seed):
     SC = dict(parameters=['a name looked up earlier still yields the same overload set after more members were added', 'new members go at the end; earlier members keep their index', 'an earlier member reads as before', 'members are distinct objects'],
               token_location=['a token keeps the location it was given after the client changed its own location object', 'a token reports the spelling, value and category it was given'],
               unified=['the same request returns the node obtained earlier, whatever was requested in between', 'the node obtained earlier reads as before'],
+              warehouse=['a product / sum asked through a Warehouse holds its elements in order', 'the node is keyed on the Lexicon\'s own copy of the contents, not on the caller\'s object', 'the nodes read as before after the caller changed its warehouse', 'equal contents in another warehouse yield the same nodes', 'different contents yield a different node'],
               redeclaration=['a declaration obtained earlier keeps its master, name, type and position when it is redeclared', 'a primary template obtained earlier still reports itself as the primary template after it is redeclared', 'the redeclaration joins the earlier declaration\'s declaration-set at its end'])
     sn = {'st_' + k: 'drv::st_' + k for k in SC}
     su = Unit('scenarios', 'drivers/stability.cxx', roots=sorted(sn.values()), names=sn)
@@ -41,7 +42,7 @@ def scenarios(tier, seed):
             for i, (ct, pn) in enumerate(cps):
                 if pooled and pn in pooled[1]:
                     args.append(pn); continue
-                if k == 'unified' and pn in ('v_t', 'v_u'):
+                if k in ('unified', 'warehouse') and pn in ('v_t', 'v_u'):
                     # operand types from one array: their address order (what the tables' comparators look at) is fixed, so the real
                     # red-black inserts run on constants; tree shapes for arbitrary orders are C08's business
                     if pn == 'v_t':
